@@ -7,8 +7,8 @@ ENTRY = "SearchArray.termfreqs(q, min_posn=a, max_posn=b)"
 LEVEL = "proof"
 RULE = ("corpora whose documents span at least 6 position words (108+ tokens) plus short ones; all aligned (min, max) "
         "pairs over words 0..8 incl. one-sided and empty-result ranges, unaligned bounds (must raise ValueError); terms "
-        "and distinct-term phrases incl. occurrences straddling a bound. Non-trivial = the restricted answer differs "
-        "from both the unrestricted answer and the zero vector. Distinct by input hash.")
+        "and distinct-term phrases incl. occurrences straddling a bound. Non-trivial = some restricted answer of the case is not "
+        "the zero vector. Distinct by input hash.")
 TRUSTED = B.TRUSTED
 ASSUMPTIONS = B.ASSUMPTIONS + ["phrases of distinct terms (same-term phrases under a range are only compared with the model)"]
 EXPLANATION = ("model = alignment validation + payload-range filter on the bucket field + popcount reduce / bigram chain on the "
